@@ -19,20 +19,24 @@ deriving DecidableEq, Repr, Inhabited
 inductive RList where
   | nil                        -- nil slice
   | items (l : List JVal)      -- non-nil slice
+  | noResult                   -- the user handler returned `(nil, nil)`: no result value at all
 deriving Repr, Inhabited
 
 /-- `json.Marshal` of a slice member without `omitempty` -/
 def RList.enc : RList → JVal
   | .nil => .null
   | .items l => .arr l
+  | .noResult => .null
 
 inductive ROut where
   | sent (list : JVal)        -- the result is sent with this value for the list member
   | errorInstead              -- the handler returns an error; no result is sent
 deriving Repr, Inhabited
 
+/-- nil slice → empty slice; a missing result is first replaced by a zero result (fix wire-F30) -/
 def nonNil : RList → RList
   | .nil => .items []
+  | .noResult => .items []
   | l => l
 
 /-- What the SDK's method handler does with the list before the result goes out. -/
@@ -48,6 +52,7 @@ def sdkResultList (k : RKind) (l : RList) : ROut :=
   | .readResource =>
     match l with
     | .nil => .errorInstead                     -- "read handler returned nil information"
+    | .noResult => .errorInstead                -- the same message, for a nil result
     | l => .sent l.enc
 
 /-- Member path of the required list in the result object. -/
@@ -71,6 +76,59 @@ def getPath : List Bytes → JVal → Option JVal
 
 def isArrJ : Option JVal → Bool
   | some (.arr _) => true
+  | _ => false
+
+/-! ## `tools/call` through a raw `ToolHandler` (`Server.AddTool`, `Server.callTool`)
+
+The low-level handler's result goes out as it is ("without any validation of the output"), except
+for what `Server.callTool` does to it.  Modelled: the three members of `CallToolResult` that the
+handler determines and that the schema speaks about — `content` (required array), `structuredContent`,
+`isError` (tags from `Generated.Wire`); `_meta` and `resultType` depend on the protocol version of the
+session and are taken from the implementation. -/
+
+open Generated.Wire in
+/-- What a raw tool handler returns. -/
+inductive ToolRet where
+  | result (content : Option (List Content)) (structured : Option JVal) (isError : Bool)
+      -- `Content`: `none` = nil slice; `StructuredContent`: `none` = nil interface
+  | nilResult          -- `(nil, nil)`
+  | error              -- `(_, err)` with `err != nil`
+deriving Repr, Inhabited
+
+/-- `json.Marshal` of the `Content []Content` member with the given `omitempty` flag. -/
+def encContentSlice (om : Bool) : Option (List Content) → Option JVal
+  | none => if om then none else some .null
+  | some [] => if om then none else some (.arr [])
+  | some cs => some (.arr (encodeContents cs))
+
+/-- `Server.callTool` on a complete result: `if res.Content == nil { res2.Content = []Content{} }`. -/
+def callToolNormalise (content : Option (List Content)) : Option (List Content) := some (content.getD [])
+
+open Generated.Wire in
+/-- The members of a `CallToolResult` the handler determines, as `json.Marshal` writes them. -/
+def callToolMembers (content : Option (List Content)) (structured : Option JVal) (isError : Bool) :
+    List (Bytes × JVal) :=
+  members [
+    (CallToolResult_Content_name, encContentSlice CallToolResult_Content_omit content),
+    member CallToolResult_StructuredContent_name CallToolResult_StructuredContent_omit structured .null,
+    member CallToolResult_IsError_name CallToolResult_IsError_omit (if isError then some (.bool true) else none) (.bool false)]
+
+inductive CallOut where
+  | sent (members : List (Bytes × JVal))   -- a result carrying (at least) these members
+  | errorInstead                           -- an error response
+deriving Repr, Inhabited
+
+/-- What the SDK sends for a `tools/call` whose raw handler returned `r`.  A nil result with a nil
+error is treated as an empty result (REPAIRED behaviour, fix wire-F30; the typed `AddTool` wrapper
+always did that: `if res == nil { res = &CallToolResult{} }`). -/
+def sdkCallTool : ToolRet → CallOut
+  | .result c s e => .sent (callToolMembers (callToolNormalise c) s e)
+  | .nilResult => .sent (callToolMembers (callToolNormalise none) none false)
+  | .error => .errorInstead
+
+/-- every block of a `content` array carries its required members -/
+def contentArrOK : Option JVal → Bool
+  | some (.arr l) => reqList l
   | _ => false
 
 end Wire
